@@ -41,7 +41,7 @@ type C = Cache<CK, CV, IdBuild>;
 
 #[derive(Clone, Copy, Debug, PartialEq)]
 pub struct Cfg { cap: Option<u64>, ttl: Option<u64>, tti: Option<u64>, weigher: Option<u8> }
-const WEIGHTS: [[u32; 4]; 3] = [[1, 2, 0, 5], [1, 1, 3, 9], [0, 0, 2, 1]];
+const WEIGHTS: [[u32; 4]; 4] = [[1, 2, 0, 5], [1, 1, 3, 9], [0, 0, 2, 1], [3_000_000_000, 3_000_000_000, 1, 2]];
 fn weight_of(cfg: &Cfg, v: u8) -> u32 { match cfg.weigher { None => 1, Some(t) => WEIGHTS[t as usize][(v % 4) as usize] } }
 
 #[derive(Clone, Copy, Debug, PartialEq)]
@@ -258,6 +258,7 @@ fn classify(op: Op, cfg: &Cfg, exp: &Snap, got: &Snap, exp_res: &str, got_res: &
         let missing: Vec<&u8> = ek.iter().filter(|k| !gk.contains(k)).collect();
         let extra: Vec<&u8> = gk.iter().filter(|k| !ek.contains(k)).collect();
         let tags = match op {
+            Op::Insert(..) if !missing.is_empty() && cfg.cap.is_none() => "C03,C17,C12,C13",
             Op::Insert(..) if !missing.is_empty() => "C03,C12,C13",
             Op::Insert(..) => "C04,C12,C13",
             Op::Invalidate(_) | Op::InvalidateAll | Op::InvalidateIf(_) => "C07,C01",
@@ -295,6 +296,12 @@ pub fn run_history(cfg: Cfg, ops: &[Op]) -> Option<(usize, Finding)> {
     let mut c: C = Cache::with_everything(cfg.cap, None, IdBuild, weigher, cfg.ttl.map(Duration::from_nanos), cfg.tti.map(Duration::from_nanos));
     let (clock, mock) = Clock::mock();
     c.set_expiration_clock(Some(clock));
+    {   // C17: the cache reports exactly the configuration it was built with
+        let pol = c.policy();
+        if pol.max_capacity() != cfg.cap || pol.time_to_live() != cfg.ttl.map(Duration::from_nanos) || pol.time_to_idle() != cfg.tti.map(Duration::from_nanos) {
+            return Some((0, Finding { tags: "C17", what: format!("policy() reports ({:?}, {:?}, {:?})", pol.max_capacity(), pol.time_to_live(), pol.time_to_idle()) }));
+        }
+    }
     let mut spec = Spec { cfg, sketch: FrequencySketch::default() };
     let mut errs = Vec::new();
     let mut cur = snapshot(&c, &mut errs);
@@ -337,6 +344,7 @@ fn configs() -> Vec<Cfg> {
     for cap in [None, Some(0u64), Some(1), Some(2), Some(3), Some(6)] {
         for (ttl, tti) in [(None, None), (Some(10u64), None), (None, Some(10u64)), (Some(15), Some(10)), (Some(0), None)] {
             for weigher in [None, Some(0u8), Some(1), Some(2)] { v.push(Cfg { cap, ttl, tti, weigher }); }
+            if cap.is_none() || cap == Some(6) { v.push(Cfg { cap, ttl, tti, weigher: Some(3) }); }
         }
     }
     v
